@@ -14,6 +14,14 @@ Clauses (oracle = the property statement):
                                     => save does not fail
   load/post:C19.loads-back          a fresh configuration of the same schema/key file loaded from the written file
                                     equals the saved one
+Two further scenario classes use the same clauses as a disjunction (raise + untouched, or saved + loads back equal):
+  key-file histories                save; give the root / a sub-configuration / a config type another key file (or use a
+                                    sub-configuration on its own first, or move it between roots); change a secret; save
+                                    again; a fresh configuration naming the key files in force must load every secret
+  un-encodable values               bytes, bytearray, Decimal, Fraction, complex, set, frozenset, range, date, datetime,
+                                    custom object, generator held in AnyField / dynamic fields / untyped lists and dicts
+                                    (also nested), every format (minus the codecs' documented coercions): a save that
+                                    "succeeds" by writing something that loads back differently violates loads-back
 """
 import contextlib
 import json
@@ -598,6 +606,366 @@ def evaluate_history(tmp, case):
 
 
 # ---------------------------------------------------------------------------------------------------------------
+# Save histories with key-file changes: the file written last must be encrypted, at every depth, with the key file
+# the configuration names at the time of that save, so a fresh configuration naming the same key files loads it back
+# ---------------------------------------------------------------------------------------------------------------
+
+KEYFILE_NAMES = ["k1", "k2", "k3"]
+
+
+def _keyfiles(tmp):
+    """fixed, pairwise different key files (the default ~/.cincokey of the sandbox is a fourth one)"""
+    d = os.path.join(tmp, "history-keys")
+    os.makedirs(d, exist_ok=True)
+    paths = {}
+    for i, name in enumerate(KEYFILE_NAMES):
+        paths[name] = os.path.join(d, name)
+        with open(paths[name], "wb") as fp:
+            fp.write(bytes(range(140 + 30 * i, 172 + 30 * i)))
+    return paths
+
+
+def _secret_schema(class_keyfile=None):
+    """secrets at the root, in nested sub-configurations (depth 2), in a config type and in list items (+ their
+    nested sub-configuration); xor and aes mixed"""
+    import cincoconfig as cc
+    s = cc.Schema()
+    s.user = cc.StringField(default="u")
+    s.password = cc.SecureField(method="xor")
+    s.sub.password = cc.SecureField(method="xor")
+    s.sub.deep.password = cc.SecureField(method="aes")
+    ts = cc.Schema()
+    ts.token = cc.SecureField(method="xor")
+    s.t = cc.make_type(ts, "Tok", key_filename=class_keyfile)
+    item = cc.Schema()
+    item.secret = cc.SecureField(method="best")
+    item.inner.secret = cc.SecureField(method="xor")
+    s.accounts = cc.ListField(item)
+    return s, item
+
+
+def _fill_secrets(c, item, tag):
+    c.password = "root-" + tag
+    c.sub.password = "sub-" + tag
+    c.sub.deep.password = "deep-" + tag
+    c.t.token = "tok-" + tag
+    acc = item()
+    acc.secret = "item-" + tag
+    acc.inner.secret = "inner-" + tag
+    c.accounts = [acc]
+
+
+def _change(c, what):
+    if what == "root":
+        c.password = "root-changed"
+    elif what == "sub":
+        c.sub.password = "sub-changed"
+    elif what == "deep":
+        c.sub.deep.password = "deep-changed"
+    elif what == "configtype":
+        c.t.token = "tok-changed"
+    elif what == "item":
+        c.accounts[0].secret = "item-changed"
+    elif what == "item-inner":
+        c.accounts[0].inner.secret = "inner-changed"
+    elif what != "none":
+        raise ValueError(what)
+
+
+def keyfile_histories():
+    """name -> (tmp, fmt, dest, keys) -> (saved config, fresh config naming the key files in force at the last save).
+    Every history ends *before* its last save; the caller performs that save under the spies."""
+    from cincoconfig.core import Config
+    out = {}
+
+    def root_rekey(change):
+        def run(tmp, fmt, dest, k):
+            s, item = _secret_schema()
+            c = Config(s, key_filename=k["k1"])
+            _fill_secrets(c, item, "a")
+            c.save(dest, fmt)
+            c._key_filename = k["k2"]
+            _change(c, change)
+            return c, Config(s, key_filename=k["k2"])
+        return run
+    for change in ("root", "deep", "item-inner", "configtype", "none"):
+        out["root-rekey/change-" + change] = root_rekey(change)
+
+    def sub_rekey(change):
+        def run(tmp, fmt, dest, k):
+            s, item = _secret_schema()
+            c = Config(s, key_filename=k["k1"])
+            _fill_secrets(c, item, "a")
+            c.save(dest, fmt)
+            c.sub._key_filename = k["k3"]
+            _change(c, change)
+            fresh = Config(s, key_filename=k["k1"])
+            fresh.sub._key_filename = k["k3"]
+            return c, fresh
+        return run
+    for change in ("sub", "deep", "none"):
+        out["sub-schema-rekey/change-" + change] = sub_rekey(change)
+
+    def configtype_rekey(tmp, fmt, dest, k):
+        s, item = _secret_schema()
+        c = Config(s, key_filename=k["k1"])
+        _fill_secrets(c, item, "a")
+        c.save(dest, fmt)
+        c.t._key_filename = k["k3"]
+        _change(c, "configtype")
+        fresh = Config(s, key_filename=k["k1"])
+        fresh.t._key_filename = k["k3"]
+        return c, fresh
+    out["configtype-rekey/change-configtype"] = configtype_rekey
+
+    def configtype_class_keyfile(tmp, fmt, dest, k):
+        s, item = _secret_schema(class_keyfile=k["k3"])  # make_type(..., key_filename=k3): named by the type itself
+        c = Config(s, key_filename=k["k1"])
+        _fill_secrets(c, item, "a")
+        c.save(dest, fmt)
+        c._key_filename = k["k2"]
+        _change(c, "configtype")
+        return c, Config(s, key_filename=k["k2"])
+    out["configtype-class-keyfile+root-rekey"] = configtype_class_keyfile
+
+    def sub_used_then_root_rekey(tmp, fmt, dest, k):
+        s, item = _secret_schema()
+        c = Config(s, key_filename=k["k1"])
+        _fill_secrets(c, item, "a")
+        for part in (c.sub, c.sub.deep, c.t, c.accounts[0], c.accounts[0].inner):
+            part.dumps(fmt)  # every sub-configuration has used the key file of the moment
+        c.sub.save(dest + ".sub", fmt)
+        c.save(dest, fmt)
+        c._key_filename = k["k2"]
+        return c, Config(s, key_filename=k["k2"])
+    out["sub-used-first-then-root-rekey"] = sub_used_then_root_rekey
+
+    def rekey_twice(tmp, fmt, dest, k):
+        s, item = _secret_schema()
+        c = Config(s, key_filename=k["k1"])
+        _fill_secrets(c, item, "a")
+        c.save(dest, fmt)
+        c._key_filename = k["k2"]
+        c.save(dest, fmt)
+        c._key_filename = k["k3"]
+        _change(c, "deep")
+        return c, Config(s, key_filename=k["k3"])
+    out["root-rekey-twice"] = rekey_twice
+
+    def default_then_named(tmp, fmt, dest, k):
+        s, item = _secret_schema()
+        c = Config(s)
+        _fill_secrets(c, item, "a")
+        c.save(dest, fmt)
+        c._key_filename = k["k2"]
+        return c, Config(s, key_filename=k["k2"])
+    out["default-keyfile-then-named"] = default_then_named
+
+    def named_then_unset(tmp, fmt, dest, k):
+        s, item = _secret_schema()
+        c = Config(s, key_filename=k["k1"])
+        _fill_secrets(c, item, "a")
+        c.save(dest, fmt)
+        c._key_filename = None
+        _change(c, "sub")
+        return c, Config(s)
+    out["named-then-unset"] = named_then_unset
+
+    def sub_named_then_unset(tmp, fmt, dest, k):
+        s, item = _secret_schema()
+        c = Config(s, key_filename=k["k1"])
+        _fill_secrets(c, item, "a")
+        c.sub._key_filename = k["k3"]
+        c.save(dest, fmt)
+        c.sub._key_filename = None
+        return c, Config(s, key_filename=k["k1"])
+    out["sub-schema-named-then-unset"] = sub_named_then_unset
+
+    def standalone_item_used_first(tmp, fmt, dest, k):
+        s, item = _secret_schema()
+        c = Config(s, key_filename=k["k1"])
+        _fill_secrets(c, item, "a")
+        c.save(dest, fmt)
+        solo = item()
+        solo.secret = "solo-item"
+        solo.inner.secret = "solo-inner"
+        solo.dumps(fmt)  # used on its own (names no key file), then put into the list of a root that names one
+        c.accounts.append(solo)
+        return c, Config(s, key_filename=k["k1"])
+    out["standalone-item-used-first-then-attached"] = standalone_item_used_first
+
+    def standalone_sub_used_first(tmp, fmt, dest, k):
+        s, item = _secret_schema()
+        c = Config(s, key_filename=k["k1"])
+        _fill_secrets(c, item, "a")
+        c.save(dest, fmt)
+        sub = s._fields["sub"]()
+        sub.password = "solo-sub"
+        sub.deep.password = "solo-deep"
+        sub.save(dest + ".sub", fmt)  # saved on its own first, then assigned to the root
+        c.sub = sub
+        return c, Config(s, key_filename=k["k1"])
+    out["standalone-sub-saved-first-then-attached"] = standalone_sub_used_first
+
+    def moved_between_roots(tmp, fmt, dest, k):
+        s, item = _secret_schema()
+        a = Config(s, key_filename=k["k1"])
+        _fill_secrets(a, item, "a")
+        a.save(dest, fmt)
+        b = Config(s, key_filename=k["k2"])
+        _fill_secrets(b, item, "b")
+        b.sub = a.sub  # a sub-configuration that was saved under one root moves to a root naming another key file
+        b.accounts = list(a.accounts)
+        return b, Config(s, key_filename=k["k2"])
+    out["sub-and-items-moved-to-root-with-other-keyfile"] = moved_between_roots
+    return out
+
+
+def evaluate_keyfile_history(tmp, case):
+    fmt = case["fmt"]
+    dest = os.path.join(tmp, "out", "keyfiles." + fmt)
+    set_prior(dest, "absent", "flat", fmt, tmp)
+    cfg, fresh = keyfile_histories()[case["keyfile_history"]](tmp, fmt, dest, _keyfiles(tmp))
+    before = read_state(dest)
+    res = run_save(cfg, dest, fmt, {}, None)
+    return _judge_saved_or_untouched(res, cfg, fresh, dest, fmt, before, "after the key-file history")
+
+
+def _judge_saved_or_untouched(res, cfg, fresh, dest, fmt, before, context):
+    """the disjunction of the statement: the save raised and left the destination untouched, or it succeeded, wrote
+    what serialisation produced and the file loads back into an equal configuration"""
+    after = read_state(dest)
+    raised, dumped = res["raised"], res["dumped"]
+    err = "%s: %s" % (type(raised).__name__, str(raised)[:80]) if raised is not None else None
+    failures = []
+    if raised is not None and not dumped:
+        outcome = "serialisation-failed"
+        if after != before:
+            failures.append((OB_UNTOUCHED, "save failed with %s but the destination changed: before %s, after %s"
+                             % (err, _short(before), _short(after))))
+        wr = [(str(f), m) for f, m in res["opened"] if same_file(f, dest) and WRITE_FLAGS & set(m)]
+        if wr:
+            failures.append((OB_UNTOUCHED, "save failed with %s but the destination was opened for writing: %s" % (err, wr)))
+    elif raised is not None:
+        outcome = "failed-after-serialisation"
+        failures.append((OB_EXACT, "serialisation succeeded (%d bytes) but save raised %s; destination now %s"
+                         % (len(dumped[0]), err, _short(after))))
+    else:
+        outcome = "saved"
+        if len(dumped) != 1 or after != dumped[0]:
+            failures.append((OB_EXACT, "destination holds %s but serialisation produced %s"
+                             % (_short(after), _short(dumped[0] if dumped else None))))
+        try:
+            fresh.load(dest, fmt)
+        except Exception as lerr:
+            failures.append((OB_LOADS_BACK, "save succeeded %s but loading the file failed: %s: %s"
+                             % (context, type(lerr).__name__, str(lerr)[:90])))
+        else:
+            diffs = diff_config(cfg, fresh)
+            if diffs:
+                failures.append((OB_LOADS_BACK, "save succeeded %s but the file loads back differently at %s: saved %s, loaded %s"
+                                 % ((context,) + diffs[0])))
+    return {"outcome": outcome, "failures": failures, "error": err}
+
+
+# ---------------------------------------------------------------------------------------------------------------
+# Values a format cannot encode, held where any value is accepted: the save either fails cleanly or loads back equal
+# ---------------------------------------------------------------------------------------------------------------
+
+
+class Custom:
+    """a user object with value equality (importable, so pickle / YAML python tags can rebuild it)"""
+
+    def __init__(self, a):
+        self.a = a
+
+    def __eq__(self, other):
+        return type(other) is Custom and other.a == self.a
+
+    def __hash__(self):
+        return hash(("Custom", self.a))
+
+    def __repr__(self):
+        return "Custom(%r)" % (self.a,)
+
+
+# Scope: C02/C04 claim the round trip only for values representable in the format (plain data, string-keyed maps), and
+# the third-party codecs document some coercions (tuple -> array, non-string scalar keys -> strings in json/bson,
+# Decimal -> double and naive datetime -> aware datetime in bson).  Those are therefore not enumerated: no tuples, no
+# non-string map keys, no Decimal / datetime for bson.
+UNENCODABLE_SKIP = {("decimal", "bson"), ("datetime-naive", "bson")}
+
+
+def unencodable_values():
+    """kind -> () -> value"""
+    import datetime
+    import decimal
+    import fractions
+    return {
+        "bytes": lambda: b"\xff\x00raw", "bytearray": lambda: bytearray(b"ab"), "decimal": lambda: decimal.Decimal("1.10"),
+        "fraction": lambda: fractions.Fraction(1, 3), "complex": lambda: 1 + 2j, "set": lambda: {1, 2},
+        "frozenset": lambda: frozenset({"a"}), "range": lambda: range(3), "date": lambda: datetime.date(2020, 1, 2),
+        "datetime-naive": lambda: datetime.datetime(2020, 1, 2, 3, 4, 5), "custom-object": lambda: Custom([1, "x"]),
+        "generator": _gen,
+    }
+
+
+HOLDERS = ["any-field", "dynamic-field", "untyped-list", "untyped-dict", "list-in-list", "dict-in-list-in-dict",
+           "any-field-in-sub-schema", "list-of-schema-item-any-field"]
+
+
+def build_holder(holder, value):
+    """-> (cfg holding the value, fresh cfg of the same schema)"""
+    import cincoconfig as cc
+    s = cc.Schema(dynamic=(holder == "dynamic-field"))
+    s.name = cc.StringField(default="n")
+    s.any = cc.AnyField()
+    s.items = cc.ListField()
+    s.opts = cc.DictField()
+    s.sub.any = cc.AnyField()
+    item = cc.Schema()
+    item.any = cc.AnyField()
+    s.rows = cc.ListField(item)
+    c = s()
+    c.name = "holder"
+    if holder == "any-field":
+        c.any = value
+    elif holder == "dynamic-field":
+        c.extra = value
+    elif holder == "untyped-list":
+        c.items = [1, value]
+    elif holder == "untyped-dict":
+        c.opts = value if isinstance(value, dict) else {"k": value}
+    elif holder == "list-in-list":
+        c.items = [[value], "x"]
+    elif holder == "dict-in-list-in-dict":
+        c.opts = {"a": [{"b": value}]}
+    elif holder == "any-field-in-sub-schema":
+        c.sub.any = value
+    elif holder == "list-of-schema-item-any-field":
+        row = item()
+        row.any = value
+        c.rows = [row]
+    else:
+        raise ValueError(holder)
+    return c, s()
+
+
+def evaluate_unencodable(tmp, case):
+    import warnings
+    fmt, prior = case["fmt"], case["prior"]
+    dest = os.path.join(tmp, "out", "unencodable." + fmt)
+    set_prior(dest, prior, "flat", fmt, tmp)
+    cfg, fresh = build_holder(case["holder"], unencodable_values()[case["unencodable"]]())
+    before = read_state(dest)
+    with warnings.catch_warnings():
+        warnings.simplefilter("ignore")  # e.g. bson's MissingTimezoneWarning
+        res = run_save(cfg, dest, fmt, {}, None)
+        return _judge_saved_or_untouched(res, cfg, fresh, dest, fmt, before,
+                                         "with a %s in %s" % (case["unencodable"], case["holder"]))
+
+
+# ---------------------------------------------------------------------------------------------------------------
 # Enumeration
 # ---------------------------------------------------------------------------------------------------------------
 
@@ -640,6 +1008,18 @@ def cases(tier, rng):
                             n += 1
                         ops.append(op)
                     yield {"history": True, "fmt": fmt, "ops": ops}
+    # save histories with key-file changes, every format
+    for name in keyfile_histories():
+        for fmt in FORMATS:
+            yield {"keyfile_history": name, "fmt": fmt}
+    # values a format cannot encode, in every holder that accepts any value, every format
+    for kind in unencodable_values():
+        for holder in HOLDERS:
+            for fmt in FORMATS:
+                if (kind, fmt) in UNENCODABLE_SKIP:
+                    continue  # a documented coercion of the codec, outside the representable domain (see above)
+                for prior in ("previous-save", "absent"):
+                    yield {"unencodable": kind, "holder": holder, "fmt": fmt, "prior": prior}
     if tier != "quick":
         while True:
             fmt = rng.choice(FORMATS)
@@ -653,6 +1033,10 @@ def cases(tier, rng):
 
 
 def witness_base(case, obligation):
+    if case.get("keyfile_history"):
+        return "keyfile-history:" + case["keyfile_history"].split("/change-")[0]
+    if case.get("unencodable"):
+        return "unencodable:" + case["unencodable"]
     if case.get("history"):
         return "history/" + ",".join(o.split(":")[0] for o in case["ops"])
     if obligation == OB_LOADS_BACK:
@@ -662,40 +1046,78 @@ def witness_base(case, obligation):
     return "%s/%s/%s" % (case["kind"], case["prior"], json.dumps(case.get("kw") or {}, sort_keys=True))
 
 
+def dispatch(tmp, case):
+    if case.get("history"):
+        return evaluate_history(tmp, case)
+    if case.get("keyfile_history"):
+        return evaluate_keyfile_history(tmp, case)
+    if case.get("unencodable"):
+        return evaluate_unencodable(tmp, case)
+    return evaluate(tmp, case)
+
+
+class _DetRandom:
+    """deterministic stand-in for os.urandom (AES IVs, salts) so that a run is reproducible"""
+
+    def __init__(self, seed):
+        self.seed, self.n = seed, 0
+
+    def __call__(self, size):
+        import hashlib
+        out = b""
+        while len(out) < size:
+            self.n += 1
+            out += hashlib.sha256(b"C19-rac:%d:%d" % (self.seed, self.n)).digest()
+        return out[:size]
+
+
 def rac(tier: str, seed: int) -> dict:
     rec = Recorder(
         PID,
-        rule="one case = one real Config.save (or a history of 3+ saves) on a destination with previous content, with "
+        rule="one case = one real Config.save (or a history of saves) on a destination with previous content, with "
              "one fault injected (or none) and spies on Config.dumps/builtins.open; enumerated: configuration kind x "
              "format x formatter options x previous content for successful saves, every applicable (fault, kind, "
-             "format, previous content) for failing ones, all 27 ok0/ok1/fault histories per format; a fault case is "
-             "non-trivial when the save really failed before serialisation returned",
+             "format, previous content) for failing ones, all 27 ok0/ok1/fault histories per format, every key-file "
+             "history x format, every (un-encodable value kind, holder, format, previous content); a fault case is "
+             "non-trivial when the save really failed before serialisation returned; witness classes: fault/previous "
+             "content, key-file history name, un-encodable value kind, suffixed @format unless all five formats fail",
         bound="7 configuration kinds (flat, nested depth 3 + typed list/dict + list of schemas + config type + "
               "virtual/instance method, dynamic, secrets xor, secrets aes/best with list of schemas and config type, "
-              "2 classes of C02's known defects); 5 formats, 11 option values, 4 kinds of previous content (real "
+              "2 classes of C02's former defects); 5 formats, 11 option values, 4 kinds of previous content (real "
               "previous save, longer garbage, empty file, absent) + a ~/ destination; %d faults (user field to_basic "
               "x 5 positions x 4 exception kinds incl. a BaseException, to_basic of 15 built-in field classes, 5 "
               "unusable key files, 4 encryption faults, unknown format names, bad formatter option, 9 out-of-domain "
-              "values, formatter dumps/__init__/registry failures, to_tree, virtual getter); histories: length 3 "
-              "exhaustive (quick), length 4-8 seeded until the budget is used (thorough)" % len(FAULTS),
+              "values, formatter dumps/__init__/registry failures, to_tree, virtual getter); save histories: length 3 "
+              "exhaustive (quick), length 4-8 seeded until the budget is used (thorough); %d key-file histories "
+              "(2-3 saves; secrets xor/aes/best at the root, depth 1-2 sub-schemas, config type, list items and their "
+              "sub-schema; 3 named key files + the default one); %d un-encodable value kinds x %d holders x 2 previous "
+              "contents (tuples, non-string map keys, Decimal/datetime for bson excluded: documented codec coercions "
+              "outside the representable domain); os.urandom replaced by a seeded stream for the duration of the run"
+              % (len(FAULTS), len(keyfile_histories()), len(unencodable_values()), len(HOLDERS)),
         tier=tier, seed=seed)
     pending = {}  # (obligation, base key) -> {fmt: (what, replay)}
-    with sandbox() as tmp:
+    with sandbox() as tmp, mock.patch.object(os, "urandom", _DetRandom(seed)):
         with open(os.path.join(tmp, ".cincokey"), "wb") as fp:
-            fp.write(OTHER_KEY_BYTES)  # a fixed default key file keeps the outcome of the known defect deterministic
+            fp.write(OTHER_KEY_BYTES)  # a fixed default key file keeps the outcome of key-file defects deterministic
         for i, case in enumerate(cases(tier, rec.rng)):
             if tier != "quick" and rec.out_of_time():
                 break
-            res = evaluate_history(tmp, case) if case.get("history") else evaluate(tmp, case)
+            res = dispatch(tmp, case)
             if case.get("history"):
                 key = ("history", case["fmt"], tuple(case["ops"]))
+                nontrivial = True
+            elif case.get("keyfile_history"):
+                key = ("keyfile-history", case["keyfile_history"], case["fmt"])
+                nontrivial = True
+            elif case.get("unencodable"):
+                key = ("unencodable", case["unencodable"], case["holder"], case["fmt"], case["prior"])
                 nontrivial = True
             else:
                 key = (case["kind"], case["fmt"], case["prior"], case.get("fault"), json.dumps(case.get("kw") or {}, sort_keys=True),
                        case.get("dest", ""), case.get("variant", 1))
                 nontrivial = (res["outcome"] == "serialisation-failed") if case.get("fault") else (res["outcome"] == "saved")
             sample = None
-            if i % 211 == 0 or (case.get("fault") and i % 97 == 0):
+            if i % 211 == 0 or (case.get("fault") and i % 97 == 0) or (case.get("keyfile_history") and i % 41 == 0):
                 sample = dict(case, outcome=res["outcome"], error=res["error"])
             rec.case(key=key, nontrivial=nontrivial, sample=sample)
             for ob, what in res["failures"]:
@@ -716,12 +1138,17 @@ def rac(tier: str, seed: int) -> dict:
 
 def replay(case: dict) -> dict:
     """re-execute one replay dict against the current /repo"""
-    with sandbox() as tmp:
+    with sandbox() as tmp, mock.patch.object(os, "urandom", _DetRandom(0)):
         with open(os.path.join(tmp, ".cincokey"), "wb") as fp:
             fp.write(OTHER_KEY_BYTES)
-        res = evaluate_history(tmp, case) if case.get("history") else evaluate(tmp, case)
+        res = dispatch(tmp, case)
     if case.get("history"):
         expected = "after every step the destination holds the last successfully saved content"
+    elif case.get("keyfile_history"):
+        expected = ("the last save encrypts every secret with the key file the configuration names at that time, so a "
+                    "fresh configuration naming the same key files loads the file back equal")
+    elif case.get("unencodable"):
+        expected = "the save raises and leaves the destination untouched, or succeeds and the file loads back equal"
     elif case.get("fault"):
         expected = "save fails and the destination is byte-for-byte unchanged and never opened for writing"
     else:
